@@ -147,7 +147,7 @@ impl ZAct {
 pub fn alphabet(reduced: bool) -> Vec<ZAct> {
     use ZAct::*;
     if reduced {
-        return vec![PushBack, PushFront, PopBack, PopFront, Remove(0), Remove(1), SwapRemoveBack(0), SwapRemoveFront(1), TruncateFront(1), Extend(2), ExtendFromSlice(2), Drain(0, 1, 1), Drain(1, 2, 0), MakeContiguous];
+        return vec![PushBack, PushFront, PopBack, PopFront, Remove(0), Remove(1), SwapRemoveBack(0), SwapRemoveFront(1), TruncateFront(1), Extend(2), ExtendFromSlice(2), Drain(0, 1, 1), Drain(0, MAXI, 5), MakeContiguous, Clear];
     }
     vec![
         PushBack, PushFront, TryPushBack, TryPushFront, PopBack, PopFront,
@@ -157,6 +157,7 @@ pub fn alphabet(reduced: bool) -> Vec<ZAct> {
         TruncateBack(0), TruncateBack(1), TruncateFront(0), TruncateFront(1), TruncateFront(MAXI),
         Clear, Extend(2), ExtendFromSlice(1), ExtendFromSlice(2), MakeContiguous,
         Drain(0, 1, 1), Drain(1, 2, 0), Drain(0, MAXI, 2), Drain(1, MAXI, 1),
+        Drain(0, MAXI, 0), Drain(0, MAXI, 5), Drain(1, MAXI, 3), Drain(0, MAXI, 4),
     ]
 }
 
@@ -272,9 +273,19 @@ fn do_act<const N: usize, T: Elem>(b: &mut CircularBuffer<N, T>, act: ZAct) -> S
                             }
                         }
                     }
+                    // partial consumption: the unyielded remainder is destroyed by the drain's drop
+                    3 => got += d.next().is_some() as usize,
+                    4 => got += d.next_back().is_some() as usize,
+                    5 => {
+                        got += d.next().is_some() as usize;
+                        got += d.next_back().is_some() as usize;
+                    }
                     _ => {}
                 }
-                return format!("drain:{}:{}", announced, got);
+                let left = d.len();
+                let shown = format!("{:?}", d);
+                let shown = if shown == "[]" { 0 } else { shown.matches(", ").count() + 1 };
+                return format!("drain:{}:{}:{}:{}", announced, got, left, shown);
             }
         };
         shape(got).to_string()
@@ -379,7 +390,14 @@ fn model_step(cap: usize, l: usize, act: ZAct) -> (String, usize) {
         ZAct::Extend(m) | ZAct::ExtendFromSlice(m) => ("()".into(), (l + m).min(cap)),
         ZAct::Drain(a, bb, k) => {
             let e = if bb == MAXI { l } else { bb };
-            (format!("drain:{}:{}", e - a, if k == 0 { 0 } else { e - a }), l - (e - a))
+            let n = e - a;
+            let got = match k {
+                0 => 0,
+                1 | 2 => n,
+                3 | 4 => n.min(1),
+                _ => n.min(2),
+            };
+            (format!("drain:{}:{}:{}:{}", n, got, n - got, n - got), l - n)
         }
     }
 }
